@@ -232,7 +232,7 @@ Proof.
 Qed.
 
 (* ------------------------------------------------------------------ newline search *)
-Definition next_newline (q : Z) : Z := find_newline (skipn (Z.to_nat q) ts) q.
+Definition next_newline (q : Z) : Z := newline_after ts q.
 
 Definition nl_or_end (f : Z) : Prop :=
   f = zlen ts \/ exists t, tok_at f = Some t /\ is_newline t = true.
@@ -264,7 +264,7 @@ Lemma next_newline_spec q :
   q <= next_newline q <= zlen ts /\ nl_or_end (next_newline q) /\
   (forall j t, q <= j < next_newline q -> tok_at j = Some t -> is_newline t = false).
 Proof.
-  intros Hq. unfold next_newline. apply find_newline_spec; [lia | intros k; apply nth_error_skipn|].
+  intros Hq. unfold next_newline, newline_after. apply find_newline_spec; [lia | intros k; apply nth_error_skipn|].
   rewrite zlen_skipn; unfold zlen in *; lia.
 Qed.
 
